@@ -63,7 +63,24 @@ def find_fn(text, fn_name, impl_re=None, occurrence=0):
     m = ms[occurrence]
     p0 = scope.index("(", m.start())
     p1 = match_paren(scope, p0)
-    b = scope.index("{", p1)
+    # the body is the first `{` outside the angle brackets of the return type (`-> Option<KalmanState<{ N }>>` holds a const block)
+    b, depth = p1 + 1, 0
+    while b < len(scope):
+        if scope.startswith("->", b):
+            b += 2
+            continue
+        c = scope[b]
+        if c == "<":
+            depth += 1
+        elif c == ">":
+            depth -= 1
+        elif c == "{":
+            if depth <= 0:
+                break
+            b = match_brace(scope, b)
+        b += 1
+    if b >= len(scope):
+        raise Unsupported("fn %s has no body" % fn_name)
     e = match_brace(scope, b)
     return scope[p0 + 1:p1], scope[b:e + 1]
 
